@@ -27,6 +27,8 @@ def Op.safe (impl : Impl) : Op → Bool
 structure EmpInv (s : State) : Prop where
   /-- new grids: the name "empty" is attached to layer 0, which still owns array 0 -/
   named : s.impl = .new → s.attached.lookup "empty" = some 0 ∧ (s.layers 0).data = 0 ∧ 0 < s.nLayers
+  /-- new grids: the descriptor `empty` of the cell class holds layer 0 -/
+  dnamed : s.impl = .new → s.descr.lookup "empty" = some 0
   /-- no user-held reference aliases array 0 -/
   handles : ∀ h a d, s.handles.lookup h = some (a, d) → a ≠ 0
   /-- an agent is placed at most once -/
@@ -41,6 +43,9 @@ theorem isEmptyCell_iff (s : State) (c : Coord) : s.isEmptyCell c = true ↔ ∀
 
 theorem EmpInv_init (impl : Impl) (dims : List Nat) (cap : Nat) : EmpInv (init impl dims cap) := by
   constructor
+  · intro h
+    simp only [init] at h
+    simp [init, h]
   · intro h
     simp only [init] at h
     simp [init, h]
@@ -72,12 +77,16 @@ theorem EmpInv.transfer {s s' : State} (h : EmpInv s) (e1 : s'.impl = s.impl)
     (e2 : s.impl = .new → s'.attached.lookup "empty" = s.attached.lookup "empty")
     (e3 : s.impl = .new → s'.layers 0 = s.layers 0)
     (e4 : s.nLayers ≤ s'.nLayers) (e5 : ∀ h a d, s'.handles.lookup h = some (a, d) → a ≠ 0)
-    (e6 : s'.agents = s.agents) (e7 : s'.heap 0 = s.heap 0) : EmpInv s' := by
+    (e6 : s'.agents = s.agents) (e7 : s'.heap 0 = s.heap 0)
+    (e8 : s.impl = .new → s'.descr.lookup "empty" = s.descr.lookup "empty" := by intros; rfl) : EmpInv s' := by
   constructor
   · intro hi
     rw [e1] at hi
     obtain ⟨a, b, c⟩ := h.named hi
     exact ⟨(e2 hi).trans a, by rw [e3 hi]; exact b, by omega⟩
+  · intro hi
+    rw [e1] at hi
+    exact (e8 hi).trans (h.dnamed hi)
   · exact e5
   · rw [e6]; exact h.keys
   · rw [e1, e6]; exact h.single
@@ -94,7 +103,7 @@ theorem upd_heap_zero (heap : Nat → Arr) (i : Nat) (x : Arr) (h : i ≠ 0) : u
 
 /-- what `writeEmpty` does when the built-in layer is in place: array 0, in place -/
 theorem writeEmpty_eq {s : State}
-    (hn : s.impl = .new → s.attached.lookup "empty" = some 0 ∧ (s.layers 0).data = 0)
+    (hn : s.impl = .new → s.descr.lookup "empty" = some 0 ∧ (s.layers 0).data = 0)
     (c : Coord) (v : Int) :
     writeEmpty s c v = { s with heap := upd s.heap 0 ((s.heap 0).set c v) } := by
   unfold writeEmpty
@@ -102,7 +111,7 @@ theorem writeEmpty_eq {s : State}
   · next hi =>
     obtain ⟨h1, h2⟩ := hn hi
     unfold cellAttrWrite
-    simp only [State.named?, h1, h2]
+    simp only [h1, h2]
   · rfl
 
 theorem isEmptyCell_append (s : State) (a : Nat) (c c' : Coord) :
@@ -140,9 +149,10 @@ theorem lookup_of_mem_nodup {l : List (Nat × Coord)} {a : Nat} {c : Coord} (hn 
 theorem EmpInv_enter {s : State} (h : EmpInv s) (a : Nat) (c : Coord)
     (hk : a ∉ s.agents.map (·.1)) (hs : s.impl = .single → c ∉ s.agents.map (·.2)) :
     EmpInv (writeEmpty { s with agents := s.agents ++ [(a, c)] } c 0) := by
-  rw [writeEmpty_eq (s := { s with agents := s.agents ++ [(a, c)] }) (fun hi => ⟨(h.named hi).1, (h.named hi).2.1⟩)]
+  rw [writeEmpty_eq (s := { s with agents := s.agents ++ [(a, c)] }) (fun hi => ⟨h.dnamed hi, (h.named hi).2.1⟩)]
   constructor
   · exact h.named
+  · exact h.dnamed
   · exact h.handles
   · show ((s.agents ++ [(a, c)]).map (·.1)).Nodup
     rw [List.map_append, List.nodup_append]
@@ -190,9 +200,9 @@ theorem EmpInv_leave {s : State} (h : EmpInv s) (a : Nat) (c0 : Coord) (hl : s.a
     · intro hh p hp
       exact hh p (List.mem_filter.mp hp).1
   have hn : ({ s with agents := s.agents.filter (·.1 ≠ a) } : State).impl = .new →
-      ({ s with agents := s.agents.filter (·.1 ≠ a) } : State).attached.lookup "empty" = some 0 ∧
+      ({ s with agents := s.agents.filter (·.1 ≠ a) } : State).descr.lookup "empty" = some 0 ∧
       (({ s with agents := s.agents.filter (·.1 ≠ a) } : State).layers 0).data = 0 :=
-    fun hi => ⟨(h.named hi).1, (h.named hi).2.1⟩
+    fun hi => ⟨h.dnamed hi, (h.named hi).2.1⟩
   have hkeys : ((s.agents.filter (·.1 ≠ a)).map (·.1)).Nodup :=
     List.Nodup.sublist (List.Sublist.map _ List.filter_sublist) h.keys
   have hsingle : s.impl = .single → ((s.agents.filter (·.1 ≠ a)).map (·.2)).Nodup :=
@@ -207,7 +217,7 @@ theorem EmpInv_leave {s : State} (h : EmpInv s) (a : Nat) (c0 : Coord) (hl : s.a
       EmpInv (writeEmpty { s with agents := s.agents.filter (·.1 ≠ a) } c0 v) := by
     intro v hv
     rw [writeEmpty_eq hn]
-    refine ⟨h.named, h.handles, hkeys, hsingle, ?_⟩
+    refine ⟨h.named, h.dnamed, h.handles, hkeys, hsingle, ?_⟩
     intro c'
     show upd s.heap 0 ((s.heap 0).set c0 v) 0 c' = _
     rw [upd_same]
@@ -250,7 +260,7 @@ theorem EmpInv_leave {s : State} (h : EmpInv s) (a : Nat) (c0 : Coord) (hl : s.a
       rw [he]; rfl
     · next he =>
       -- MultiGrid, cell still occupied: no write, and array 0 already says "occupied"
-      refine ⟨h.named, h.handles, hkeys, hsingle, ?_⟩
+      refine ⟨h.named, h.dnamed, h.handles, hkeys, hsingle, ?_⟩
       intro c'
       show s.heap 0 c' = _
       by_cases hc : c' = c0
@@ -414,6 +424,20 @@ theorem EmpInv_modifyCell {s : State} (hw : WF s) (h : EmpInv s) (l : Nat) (c : 
         · exact h.transfer rfl (fun _ => rfl) (fun _ => rfl) (Nat.le_refl _) h.handles rfl
             (upd_heap_zero _ _ _ (data_ne_zero hw h hlt hs))
 
+/-- registering a descriptor under a name that is not attached leaves the descriptor `empty` alone -/
+theorem descr_empty_setDescr {s : State} (h : EmpInv s) (hi : s.impl = .new) {n : String} (lid : Nat)
+    (hnone : s.attached.lookup n = none) :
+    (if s.impl = .new then setDescr s.descr n lid else s.descr).lookup "empty" = s.descr.lookup "empty" := by
+  have hne : "empty" ≠ n := by
+    intro e; subst e
+    rw [(h.named hi).1] at hnone
+    simp at hnone
+  rw [if_pos hi]
+  unfold setDescr
+  have hb : ("empty" == n) = false := by simpa using hne
+  rw [List.lookup_cons, hb]
+  exact lookup_filter_ne _ _ _ hne
+
 theorem EmpInv_step {s : State} (hw : WF s) (h : EmpInv s) (op : Op) (hs : op.safe s.impl = true) :
     EmpInv (step s op).1 := by
   have hnp := hw.next_pos
@@ -423,7 +447,9 @@ theorem EmpInv_step {s : State} (hw : WF s) (h : EmpInv s) (op : Op) (hs : op.sa
     unfold create
     split
     · exact h
-    · refine h.transfer rfl ?_ ?_ (Nat.le_succ _) h.handles rfl (upd_heap_zero _ _ _ (by omega))
+    · next hchk =>
+      refine h.transfer rfl ?_ ?_ (Nat.le_succ _) h.handles rfl (upd_heap_zero _ _ _ (by omega))
+        (fun hi => descr_empty_setDescr h hi _ (attachCheck_none hchk).1)
       · intro hi
         show (s.attached ++ [(n, s.nLayers)]).lookup "empty" = _
         rw [List.lookup_append, (h.named hi).1]; rfl
@@ -444,9 +470,10 @@ theorem EmpInv_step {s : State} (hw : WF s) (h : EmpInv s) (op : Op) (hs : op.sa
     · exact h
     · split
       · exact h
-      · refine h.transfer rfl ?_ (fun _ => rfl) (Nat.le_refl _) h.handles rfl rfl
+      · next l' _ _ hchk =>
+        refine h.transfer rfl ?_ (fun _ => rfl) (Nat.le_refl _) h.handles rfl rfl
+          (fun hi => descr_empty_setDescr h hi _ (attachCheck_none hchk).1)
         intro hi
-        next l' _ _ _ =>
         show (s.attached ++ [(l'.name, l)]).lookup "empty" = _
         rw [List.lookup_append, (h.named hi).1]; rfl
   | detach n =>
@@ -454,10 +481,12 @@ theorem EmpInv_step {s : State} (hw : WF s) (h : EmpInv s) (op : Op) (hs : op.sa
     unfold detach
     split
     · exact h
-    · refine h.transfer rfl ?_ (fun _ => rfl) (Nat.le_refl _) h.handles rfl rfl
-      intro hi
-      simp only [Op.safe, hi, bne_self_eq_false, Bool.false_or, bne_iff_ne, ne_eq] at hs
-      exact lookup_filter_ne _ _ _ (fun e => hs e.symm)
+    · have hne : s.impl = .new → "empty" ≠ n := by
+        intro hi
+        simp only [Op.safe, hi, bne_self_eq_false, Bool.false_or, bne_iff_ne, ne_eq] at hs
+        exact fun e => hs e.symm
+      exact h.transfer rfl (fun hi => lookup_filter_ne _ _ _ (hne hi)) (fun _ => rfl) (Nat.le_refl _) h.handles rfl rfl
+        (fun hi => lookup_filter_ne _ _ _ (hne hi))
   | layerSet l c v =>
     simp only [step]
     unfold layerSet
@@ -485,6 +514,7 @@ theorem EmpInv_step {s : State} (hw : WF s) (h : EmpInv s) (op : Op) (hs : op.sa
           split
           · next lid hn =>
             have hne : n ≠ "empty" := by simpa [Op.safe, hi] using hs
+            rw [hw.descr_eq hi n] at hn
             have hl0 := named_ne_zero hw h hi hn hne
             exact h.transfer rfl (fun _ => rfl) (fun _ => rfl) (Nat.le_refl _) h.handles rfl
               (upd_heap_zero _ _ _ (data_ne_zero hw h (hw.att_lt n lid hn) (fun _ => hl0)))
